@@ -125,6 +125,13 @@ def gen_db_case(rng, in_scope: bool = True) -> dict[str, Any]:
     exported: list[set] = []  # per point: names present in the file
     ops: list[list[Any]] = []
     have_file = False
+    in_file: list[bool] = []  # per point: does the file hold it?
+
+    def mark_exported():
+        for j in range(len(pts)):
+            exported[j] = set(stored[j])
+            in_file[j] = True
+
     for _ in range(n_ops):
         if via != "direct" or rng.chance(0.8 if many_pts else 0.62) or not pts:
             # ---- store
@@ -145,6 +152,7 @@ def gen_db_case(rng, in_scope: bool = True) -> dict[str, Any]:
                 pts.append({"int": is_int, "xs": xs})
                 stored.append({})
                 exported.append(set())
+                in_file.append(False)
                 i = len(pts) - 1
             k = rng.pick([0, 1, 1, 1, 2, 2, 3, 4]) if not many else rng.randint(0, 9)
             outs: dict[str, Any] = {}
@@ -165,14 +173,21 @@ def gen_db_case(rng, in_scope: bool = True) -> dict[str, Any]:
             ops.append(["store", pts[i], outs])
             if via == "store_listener" or (via == "iter_listener" and new_iter):
                 ops.append(["export", "a"])
-                for j in range(len(pts)):
-                    exported[j] = set(stored[j])
+                mark_exported()
                 have_file = True
+        elif in_scope and have_file and rng.chance(0.15):
+            # ---- restart: a new Database filled from the file; stores since the last export are lost
+            ops.append(["reload"])
+            keep = [j for j in range(len(pts)) if in_file[j]]
+            stored = [{n: v for n, v in stored[j].items() if n in exported[j]} for j in keep]
+            pts = [pts[j] for j in keep]
+            exported = [exported[j] for j in keep]
+            in_file = [True] * len(pts)
+            seen = {tuple(Fraction(t) for t in q["xs"]) for q in pts}
         else:
             mode = "a" if rng.chance(0.8) else "w"
             ops.append(["export", mode])
-            for j in range(len(pts)):
-                exported[j] = set(stored[j])
+            mark_exported()
             have_file = True
     if via == "direct" and (not have_file or rng.chance(0.5)):
         ops.append(["export", "a"])
@@ -201,6 +216,8 @@ def db_lines(case) -> list[str]:
     for op in case["ops"]:
         if op[0] == "store":
             lines.append(" ".join(["store", pt_tok(op[1]), *[f"{n}={val_tok(v)}" for n, v in op[2].items()]]))
+        elif op[0] == "reload":
+            lines.append("reload")
         else:
             lines.append(f"export {op[1]}")
     return lines
@@ -358,6 +375,8 @@ class DbRun:
                         self.lines.append("*")
                         i += 1
                         self._refresh(i)
+                elif op[0] == "reload":
+                    self.db = self.Database.from_hdf(self.path, hdf_node_path=self.node, log=False)
                 else:
                     self._export(op[1])
                     self._refresh(i)
@@ -393,11 +412,20 @@ def spec_equal(spec, got) -> bool:
 
 
 def expected_content(ops, upto: int) -> list[tuple[dict, dict]]:
-    """Plain twin of the database: ordered points, per point the last value stored under each name."""
+    """Plain twin of the database: ordered points, per point the last value stored under each name.
+    A `reload` restarts from the content at the last export."""
     order: list[tuple] = []
     content: dict[tuple, tuple[dict, dict]] = {}
+    snap_order: list[tuple] = []
+    snap: dict[tuple, tuple[dict, dict]] = {}
     for op in ops[: upto + 1]:
-        if op[0] != "store":
+        if op[0] == "export":
+            snap_order = list(order)
+            snap = {k: (v[0], dict(v[1])) for k, v in content.items()}
+            continue
+        if op[0] == "reload":
+            order = list(snap_order)
+            content = {k: (v[0], dict(v[1])) for k, v in snap.items()}
             continue
         key = (op[1]["int"], tuple(Fraction(t) for t in op[1]["xs"]))
         if key not in content:
@@ -505,6 +533,9 @@ def neighbours_db(case):
             c = dict(case)
             c["ops"] = ops[:i] + [ops[i], ops[i]] + ops[i + 1 :]
             yield c
+            c = dict(case)
+            c["ops"] = ops[: i + 1] + [["reload"]] + ops[i + 1 :]
+            yield c
     for node in ("", "n1/n2"):
         if node != case["node"]:
             c = dict(case)
@@ -540,7 +571,7 @@ def scope_flags(case) -> list[bool]:
     """Per operation: is it inside the property's quantifier (harness bookkeeping, independent of
     the model's `inScopeB`)? A store must not change an output already present in the file."""
     stored: dict[tuple, dict] = {}
-    exported: dict[tuple, set] = {}
+    in_file: dict[tuple, dict] = {}  # what the file holds: point -> name -> value token
     flags = []
     for op in case["ops"]:
         if op[0] == "store":
@@ -548,14 +579,23 @@ def scope_flags(case) -> list[bool]:
             cur = stored.setdefault(key, {})
             ok = True
             for n, v in op[2].items():
-                if n in exported.get(key, set()) and val_tok(cur[n]) != val_tok(v):
+                if n in in_file.get(key, {}) and val_tok(cur[n]) != val_tok(v):
                     ok = False
             flags.append(ok)
             cur.update(op[2])
+        elif op[0] == "reload":
+            flags.append(True)
+            stored = {k: dict(v) for k, v in in_file.items()}
         else:
             flags.append(True)
-            for key, cur in stored.items():
-                exported[key] = set(cur)
+            if op[1] == "w" or not in_file:
+                in_file = {k: dict(v) for k, v in stored.items()}
+            else:
+                # append: an output already in the file keeps its file value
+                for key, cur in stored.items():
+                    ent = in_file.setdefault(key, {})
+                    for n, v in cur.items():
+                        ent.setdefault(n, v)
     return flags
 
 
@@ -613,7 +653,9 @@ def check_db_cases(res: Result, cases: list[dict[str, Any]], in_scope: bool, twi
         run = DbRun(case).run()
         ops = case["ops"]
         n_store = sum(1 for o in ops if o[0] == "store")
-        n_exp = len(ops) - n_store
+        n_exp = sum(1 for o in ops if o[0] == "export")
+        if any(o[0] == "reload" for o in ops):
+            res.count("db:has-reload")
         res.count(f"db:ops={min(len(ops) // 5 * 5, 25)}+")
         res.count(f"db:via={case['via']}")
         res.count("db:node=" + ("root" if not case["node"] else "nested"))
@@ -650,8 +692,12 @@ def check_db_cases(res: Result, cases: list[dict[str, Any]], in_scope: bool, twi
             res.count("db:probe-disagreement")
             res.notes.append(f"out-of-scope probe disagreement at op {k}: impl={impl[:200]} model={m[:200]}")
             continue
-        found = bool(bad)
+        found = bool(bad) or any(v.kind == "oracle" for v in res.violations)
+        searches = res.extra.setdefault("failing_input_searches", 0)
+        if not found and searches >= 4:
+            found = any(v.kind == "correspondence" for v in res.violations)
         if not found:
+            res.extra["failing_input_searches"] = searches + 1
             for nb in neighbours_db(case):
                 nb = fix_listener_ops(nb)
                 if not in_scope_db(nb):
@@ -684,6 +730,10 @@ def _append_branches(case) -> set:
         if op[0] == "store":
             key = (op[1]["int"], tuple(op[1]["xs"]))
             stored.setdefault(key, {}).update(op[2])
+            continue
+        if op[0] == "reload":
+            stored = {k: {n: v for n, v in stored[k].items() if n in exported[k]} for k in exported}
+            out.add("append-after-reload")
             continue
         if op[1] == "a" and have and exported:
             for key, cur in stored.items():
@@ -1299,6 +1349,35 @@ def check_cache_cases(res: Result, cases) -> None:
 # =========================================================================== run / replay
 
 
+def exhaustive_db_cases(max_len: int) -> list[dict[str, Any]]:
+    """All histories of length <= max_len over a reduced alphabet: two points, stores of {}, {f}, {g},
+    {f, g} (f a Python scalar, g an array; fixed values, so re-stores are idempotent), append export,
+    fresh export, restart (only once a file exists)."""
+    p0 = {"int": False, "xs": ["0", "1"]}
+    p1 = {"int": True, "xs": ["2", "3"]}
+    f = {"k": "f", "shape": [], "data": ["1/2"]}
+    g = {"k": "a", "shape": [2], "data": ["1", "-3/4"]}
+    alphabet: list[list[Any]] = []
+    for p in (p0, p1):
+        for outs in ({}, {"f": f}, {"g": g}, {"g": g, "f": f}):
+            alphabet.append(["store", p, outs])
+    alphabet += [["export", "a"], ["export", "w"], ["reload"]]
+    cases = []
+    for n in range(1, max_len + 1):
+        for seq in itertools.product(alphabet, repeat=n):
+            have = False
+            ok = True
+            for op in seq:
+                if op[0] == "export":
+                    have = True
+                elif op[0] == "reload" and not have:
+                    ok = False
+                    break
+            if ok and any(op[0] != "store" for op in seq):
+                cases.append({"kind": "db", "node": "", "via": "direct", "space": False, "ops": [list(o) for o in seq]})
+    return cases
+
+
 def load_corpus() -> list[dict[str, Any]]:
     d = common.CORPUS_DIR / PID
     out = []
@@ -1313,7 +1392,7 @@ def run(ctx) -> Result:
     res.rule = (
         "db: random store/export histories (1-25 ops, 16 output names incl. gradients '@f', value kinds python float/int, "
         "numpy scalar, 0-d/size-1/vector/matrix/empty/int arrays, lists, empty entries, int/float/mixed points, root/nested node, "
-        "direct exports or store/new-iteration listeners, fresh and append exports); non-trivial = >= 2 stores and >= 2 exports, "
+        "direct exports or store/new-iteration listeners, fresh and append exports, restarts from the file); non-trivial = >= 2 stores and >= 2 exports, "
         "distinct by protocol lines. ds: random design spaces (1-5 variables, sizes 1-4, float/integer, infinite bounds, missing "
         "values, multi-character names), non-trivial = >= 2 variables."
     )
@@ -1338,6 +1417,16 @@ def run(ctx) -> Result:
         cases = [gen_db_case(rng, True) for _ in range(min(batch, n_db - done))]
         check_db_cases(res, cases, True, twin_every=1 if ctx.thorough else 2)
         done += len(cases)
+    if ctx.thorough:
+        ex = exhaustive_db_cases(4)
+        for k in range(0, len(ex), 400):
+            if not time_left(ctx):
+                res.notes.append(f"exhaustive enumeration stopped after {k} of {len(ex)} histories (deadline)")
+                break
+            check_db_cases(res, ex[k : k + 400], True, twin_every=5)
+        else:
+            res.exhaustive = True
+        res.count("db:exhaustive-small-scope", len(ex))
     probes = [gen_db_case(rng, False) for _ in range(n_db // 8)]
     check_db_cases(res, [c for c in probes if not in_scope_db(c)], False)
     check_ds_cases(res, [gen_ds_case(rng, exact=True) for _ in range(n_ds)])
